@@ -20,7 +20,8 @@
 (*   [k |-> "call", n, a |-> <<arg>>]   [k |-> "index", a |-> <<e>>, i]     *)
 (*   [k |-> "if", a |-> <<c, t, f>>]  [k |-> "vec", a]  [k |-> "map", kv]    *)
 (*   [k |-> <unary/binary kind>, a |-> <<operands>>]                        *)
-(* Environment: [input, syms |-> <<<<name, value>>...>>, funcs |-> <<f...>>] *)
+(* Environment: [input, syms |-> <<<<name, value>>...>>, funcs |-> <<f...>>, *)
+(*   ev |-> id of the evaluation (recorded in the invocation log)]          *)
 (*   f = [name, cacheable, suspend, script |-> <<r...>>],                   *)
 (*   r = [r |-> "v", v] | [r |-> "fail", msg] | [r |-> "counter"]           *)
 (*       | [r |-> "echo"] | [r |-> "tagged"]      (n-th invocation -> r[n],  *)
@@ -103,7 +104,7 @@ DoCall(env, st, name, arg) ==
        IF fn.cacheable /\ CacheHas(st.cache, name, arg) THEN [o |-> Ok(CacheGet(st.cache, name, arg)), st |-> st]
        ELSE LET n == st.counts[fi] + 1
                 o == FnResult(fn, arg, n)
-                st1 == [st EXCEPT !.counts[fi] = n, !.calls = Append(@, [f |-> name, arg |-> arg, n |-> n])]
+                st1 == [st EXCEPT !.counts[fi] = n, !.calls = Append(@, [f |-> name, arg |-> arg, n |-> n, ev |-> env.ev])]
             IN [o |-> o,
                 st |-> IF fn.cacheable /\ o.ok THEN [st1 EXCEPT !.cache = Append(@, [f |-> name, a |-> arg, v |-> o.v])]
                        ELSE st1]
@@ -219,7 +220,7 @@ Step(ms, gs, env) ==
                  IF fn.cacheable /\ CacheHas(ms.cache, f.e.n, o.v) THEN same(RetPop(ms, Ok(CacheGet(ms.cache, f.e.n, o.v))))
                  ELSE LET n == gs.counts[fi] + 1 IN
                       [ms |-> [ms EXCEPT !.mode = [m |-> "call", fi |-> fi, arg |-> o.v, n |-> n, left |-> fn.suspend]],
-                       gs |-> [gs EXCEPT !.counts[fi] = n, !.calls = Append(@, [f |-> f.e.n, arg |-> o.v, n |-> n])],
+                       gs |-> [gs EXCEPT !.counts[fi] = n, !.calls = Append(@, [f |-> f.e.n, arg |-> o.v, n |-> n, ev |-> env.ev])],
                        ev |-> "step"]
        [] OTHER ->
             LET vals == Append(f.vals, o.v) IN
